@@ -37,35 +37,51 @@ type TableHeader struct {
 }
 
 func PointerField(psi []byte) uint8 {
+	if len(psi) == 0 {
+		return 0
+	}
 	return psi[0]
+}
+
+// sectionStart returns the bytes of the first section of a payload (everything
+// after the pointer field and its filler), or nil if the payload is too short.
+func sectionStart(psi []byte) []byte {
+	offset := 1 + int(PointerField(psi))
+	if offset >= len(psi) {
+		return nil
+	}
+	return psi[offset:]
 }
 
 // TableID returns the psi table header table id
 func TableID(psi []byte) uint8 {
-	return tableID(psi[1+PointerField(psi):])
+	return tableID(sectionStart(psi))
 }
 
 // SectionSyntaxIndicator returns true if the psi contains section syntax
 func SectionSyntaxIndicator(psi []byte) bool {
-	return sectionSyntaxIndicator(psi[1+PointerField(psi):])
+	return sectionSyntaxIndicator(sectionStart(psi))
 }
 
 // PrivateIndicator returns true if the psi contains private data
 func PrivateIndicator(psi []byte) bool {
-	return psi[2+PointerField(psi)]&0x40 != 0
+	section := sectionStart(psi)
+	if len(section) < 2 {
+		return false
+	}
+	return section[1]&0x40 != 0
 }
 
 // SectionLength returns the psi section length
 func SectionLength(psi []byte) uint16 {
-	offset := int(1 + PointerField(psi))
-	if offset >= len(psi) {
-		return 0
-	}
-	return sectionLength(psi[offset:])
+	return sectionLength(sectionStart(psi))
 }
 
 // tableID returns the table id from the header of a section
 func tableID(psi []byte) uint8 {
+	if len(psi) < 1 {
+		return 0
+	}
 	return uint8(psi[0])
 }
 
@@ -81,11 +97,17 @@ func tableVersionAndCNI(psi []byte) (uint8, bool, error) {
 }
 
 func sectionSyntaxIndicator(psi []byte) bool {
+	if len(psi) < 2 {
+		return false
+	}
 	return psi[1]&0x80 != 0
 }
 
 // sectionLength returns the length of a single psi section
 func sectionLength(psi []byte) uint16 {
+	if len(psi) < 3 {
+		return 0
+	}
 	return uint16(psi[1]&3)<<8 | uint16(psi[2])
 }
 
